@@ -871,6 +871,60 @@ def case_mapper(ctx, scales, kind, sub=2, mesh_shape=(3, 3), name=None, H=None, 
          {}, validate_every=1 if name else 16)
 
 
+# ------------------------------------------------------------------------------------------------ border relocation of translated grids
+
+def relocate_outputs(mask, scales, o, sub, stretch):
+    """relocated data / mesh grids: the grids are the over-sampled grid stretched about the origin (so that points fall outside the
+    border) and a few mesh points given relative to the origin; both are translated together with the mask"""
+    import autoarray as aa
+    from autoarray.inversion.pixelization.border_relocator import BorderRelocator
+    R = Out()
+    m = aa.Mask2D(mask=mask.copy(), pixel_scales=scales, origin=(o[0], o[1]))
+    br = BorderRelocator(mask=m, sub_size=_sub_of(sub, m))
+    sg = hx.attempt(lambda: np.asarray(br.sub_grid))
+
+    def stretched(f):
+        g = _reraise(sg)
+        out = np.empty(g.shape, dtype=g.dtype)
+        out[:, 0] = o[0] + f * (g[:, 0] - o[0])
+        out[:, 1] = o[1] + f * (g[:, 1] - o[1])
+        return aa.Grid2DIrregular(values=out)
+
+    for f in (1.0, stretch):
+        t = "[stretch=%s]" % f
+        R.put("BorderRelocator.relocated_grid_from" + t, "coord", lambda: br.relocated_grid_from(grid=stretched(f)).array)
+        for nm, pts in (("few", DELAUNAY_REL[:3]), ("inside", [(0.0625, 0.125)]), ("all", DELAUNAY_REL)):
+            mesh = aa.Grid2DIrregular(values=[(o[0] + a * scales[0], o[1] + b * scales[1]) for (a, b) in pts])
+            R.put("BorderRelocator.relocated_mesh_grid_from(%s)%s" % (nm, t), "coord",
+                  lambda: br.relocated_mesh_grid_from(grid=stretched(f), mesh_grid=mesh).array)
+    return R
+
+
+def body_relocate(inp, H, W, scales, sub, stretch, _keep=None):
+    mask = np.array(inp["mask"], dtype=bool).reshape(H, W)
+    o1, o2, d = _origins(inp)
+    R1 = relocate_outputs(mask, tuple(scales), o1, sub, stretch)
+    R2 = relocate_outputs(mask, tuple(scales), o2, sub, stretch)
+    if _keep is not None:
+        _keep["R1"], _keep["R2"] = R1, R2
+    return relate(R1, R2, d)
+
+
+def case_relocate(ctx, scales, sub=2, stretch=1.5, name=None, H=None, W=None):
+    _early_stop(ctx)
+    if name is not None:
+        mask = MASKS[name]
+        H, W = mask.shape
+    else:
+        mask = _fork_mask(ctx, H, W)
+    ctx.set_case(mask=mask.tolist())
+    inputs = _sym_origin(ctx)
+    inputs["mask"] = mask
+    # |o|, |o+d| <= 8 pixels: a fault that measures radii from the absolute (0,0) puts sqrt terms of the origin into branch conditions
+    _bound_origin(ctx, inputs, scales, 8.0)
+    _run(ctx, body_relocate, inputs, {"H": H, "W": W, "scales": list(scales), "sub": sub, "stretch": stretch}, {}, validate_every=1 if name else 8)
+
+
 # ------------------------------------------------------------------------------------------------ shared option objects
 
 def _shared_objects(scales, sub):
@@ -1107,7 +1161,7 @@ def _simplified(x):
 
 
 BODIES = {"case_geometry": body_geometry, "case_geometry_named": body_geometry, "case_overlay": body_overlay,
-          "case_dataset": body_dataset, "case_points": body_points, "case_radial": body_radial, "case_mapper": body_mapper, "case_shared": body_shared}
+          "case_dataset": body_dataset, "case_points": body_points, "case_radial": body_radial, "case_mapper": body_mapper, "case_shared": body_shared, "case_relocate": body_relocate}
 
 
 def cases(tier):
@@ -1156,6 +1210,12 @@ def cases(tier):
     if not quick:
         out.append(("case_dataset", {"H": 2, "W": 3, "scales": [0.25, 0.5]}, {"split": 4}))
         out.append(("case_dataset", {"H": 2, "W": 2, "scales": [0.5, 2.0]}, {"split": 2}))
+    # border relocation (BorderRelocator.relocated_grid_from / relocated_mesh_grid_from) of grids translated with the mask
+    for n, name in enumerate(["disc7", "ring5", "cross7", "full3x3"] + ([] if quick else ["blob6x7", "edge4x6", "annulus9", "diag7"])):
+        out.append(("case_relocate", {"name": name, "scales": SCALES[n % len(SCALES)], "sub": [2, 1, "mixed", 2][n % 4], "stretch": [1.5, 2.0, 1.25][n % 3]}))
+    out.append(("case_relocate", {"H": 2, "W": 2, "scales": [1.0, 1.0]}))
+    if not quick:
+        out.append(("case_relocate", {"H": 2, "W": 3, "scales": [0.5, 2.0], "stretch": 2.0}, {"split": 2}))
     # one set of option objects (over-sampling, image mesh, mesh, regularization, settings, preloads, PSF, simulator) shared by both runs
     for n, name in enumerate(["disc7", "ring5", "full3x3"] + ([] if quick else ["edge4x6", "blob6x7", "cross7", "full4x3"])):
         out.append(("case_shared", {"name": name, "scales": SCALES[n % len(SCALES)], "sub": 2 if n % 2 == 0 else 3}))
@@ -1231,6 +1291,11 @@ def replay(cand):
             kw["H"], kw["W"] = MASKS[kw["name"]].shape
         kw.pop("name", None)
         kw.setdefault("sub", 2); kw.setdefault("mesh_shape", [3, 3])
+    elif cand["case_fn"] == "case_relocate":
+        if kw.get("name") is not None:
+            kw["H"], kw["W"] = MASKS[kw["name"]].shape
+        kw.pop("name", None)
+        kw.setdefault("sub", 2); kw.setdefault("stretch", 1.5)
     elif cand["case_fn"] == "case_shared":
         if kw.get("name") is not None:
             kw["H"], kw["W"] = MASKS[kw["name"]].shape
